@@ -105,7 +105,36 @@ func main() {
 			}(f)
 		}
 	}
-	split("conv", l.Cases)
+	// long random conversations (up to 30 messages, below the rate limiter's window together with the driver's
+	// synchronisation requests), walked by TLC's simulator on the same model and replayed in full
+	convs := l.Cases
+	{
+		num, depth := 120, 30
+		if tier == "thorough" {
+			num = 2000
+		}
+		sim := core.MustTLC(core.TLCOpts{Spec: "Lsp", Cfg: "Lsp_tour.cfg", Workers: 1, Simulate: fmt.Sprintf("num=%d", num), Depth: depth, Seed: 1000 + run.Seed, Timeout: 10 * time.Minute})
+		ss := sim.Stat(fmt.Sprintf("random conversations (%d of up to %d messages), replayed in full", num, depth))
+		ss.Mode = "simulation"
+		run.AddTLC(ss)
+		// every prefix of a behaviour is printed: keep a conversation only if the next line does not extend it
+		long := 0
+		for i, c := range sim.Cases {
+			n := strings.Count(c, `"kind"`)
+			if i+1 < len(sim.Cases) && strings.Count(sim.Cases[i+1], `"kind"`) == n+1 {
+				continue
+			}
+			if n >= 8 {
+				convs = append(convs, c)
+				long++
+			}
+		}
+		if long < num/2 {
+			core.Fatalf("Lsp simulation produced only %d long conversations", long)
+		}
+		run.Extra["long_random_conversations"] = long
+	}
+	split("conv", convs)
 	split("edit", e.Cases)
 	wg.Wait()
 	os.RemoveAll(dir)
